@@ -41,12 +41,13 @@ type c19Rec struct {
 }
 
 type c19Worker struct {
-	recs     []c19Rec
-	panicMsg string
-	panicFn  int
-	origin   string
-	fault    uintptr
-	isFault  bool
+	keptChanged int // long strings returned earlier that no longer read the same
+	recs        []c19Rec
+	panicMsg    string
+	panicFn     int
+	origin      string
+	fault       uintptr
+	isFault     bool
 }
 
 func init() {
@@ -118,6 +119,7 @@ func c19Concurrent(w *mon.W, cp *c19Corpus, sigs []*sigbits.SigBits, ar *c19Aren
 			defer wg.Done()
 			r := gen.NewRand(w.Cfg.Seed, "C19", fmt.Sprintf("worker/%s/%d", w.Cfg.Flavour, phase), g)
 			var cur c19Call
+			var kept []c19Kept
 			defer func() {
 				if x := recover(); x != nil {
 					wk.panicMsg = fmt.Sprint(x)
@@ -143,8 +145,24 @@ func c19Concurrent(w *mon.W, cp *c19Corpus, sigs []*sigbits.SigBits, ar *c19Aren
 					t1 = int64(time.Since(base))
 				}
 				wk.recs = append(wk.recs, c19Rec{cur, h, t0, t1})
-				if k&63 == 0 && r.Intn(4) == 0 {
-					runtime.Gosched()
+				if int(cur.fn) == fBitwordToStr {
+					// keep long ToStr results: a string must keep its content whatever is called later
+					if str := bitword.BitWord[c19BWWidths[cur.a]].ToStr(cp.bwWords[cur.a][cur.b]); len(str) >= 512 {
+						if len(kept) >= 6 {
+							kept = kept[1:]
+						}
+						kept = append(kept, c19Kept{str, gen.HashStr(str)})
+					}
+				}
+				if k&63 == 0 {
+					for _, x := range kept {
+						if gen.HashStr(x.s) != x.h {
+							wk.keptChanged++
+						}
+					}
+					if r.Intn(4) == 0 {
+						runtime.Gosched()
+					}
 				}
 			}
 		}(g, wk)
@@ -154,6 +172,10 @@ func c19Concurrent(w *mon.W, cp *c19Corpus, sigs []*sigbits.SigBits, ar *c19Aren
 	w.Tick()
 	// worker panics -> violations (decided on the main goroutine, after the join)
 	for g, wk := range workers {
+		if wk.keptChanged > 0 {
+			w.Fail("returned-string-changed-by-later-call/bitword.ToStr", mon.D{"goroutine": g, "phase": phase, "times": wk.keptChanged,
+				"what": "a long string returned by ToStr no longer had its content when re-read after later calls"})
+		}
 		if wk.panicMsg == "" {
 			continue
 		}
@@ -557,4 +579,9 @@ func c19DenseSweep(w *mon.W) (int64, int64) {
 	wg.Wait()
 	w.Tick()
 	return int64(len(jobs)), evals
+}
+
+type c19Kept struct {
+	s string
+	h uint64
 }
